@@ -549,6 +549,17 @@ var c17Registry = func() []c17fn {
 		r3 := lineintersector.LineIntersectsLine(lineintersector.RobustLineIntersector{}, a, b, c, d)
 		return s1 + fmt.Sprint(r2.Type(), r2.Intersection(), r3.Type(), r3.Intersection(), r1.Type(), r1.Intersection())
 	})
+	add("NewBounds.SetCoords(shared coordinates).Extend(shared geometry)", nc, func(fx *c17fx, k int) string {
+		// a box made from two of the caller's coordinates and extended afterwards:
+		// the box is new, the coordinates and the geometry are only read
+		b := geom.NewBounds(geom.XYZ).SetCoords(fx.coords[k], fx.coords[k+1])
+		b.Extend(fx.geoms[k%len(fx.geoms)])
+		out := b.Layout().String()
+		for i := 0; i < b.Layout().Stride(); i++ {
+			out += " " + fbits(b.Min(i)) + ":" + fbits(b.Max(i))
+		}
+		return out
+	})
 	add("xyz.*", nc, func(fx *c17fx, k int) string {
 		a, b, c, d := fx.coords[k], fx.coords[k+1], fx.coords[k+2], fx.coords[k+3]
 		return fbits(xyz.Distance(a, b)) + fbits(xyz.DistancePointToLine(a, b, c)) + fbits(xyz.DistanceLineToLine(a, b, c, d)) + fbits(xyz.VectorDot(a, b, c, d)) + fbits(xyz.VectorLength(a)) + cstr(xyz.VectorNormalize(a)) + fmt.Sprint(xyz.Equals(a, b))
